@@ -34,6 +34,7 @@ type c14Task struct {
 	FailAt   int      `json:"fail_at"`           // -1: never; k: a failing command after k work commands
 	Nested   bool     `json:"nested,omitempty"`  // the body submits a nested task through pip:run
 	NestFail bool     `json:"nest_fail,omitempty"`
+	NestLock int      `json:"nest_lock,omitempty"` // nested task: 0 no lock flags, 1 --wlock=nl, 2 --rlock=nl, 3 the name in both --wlock and --rlock (still a writer)
 	RLock    []string `json:"rlock,omitempty"`
 	WLock    []string `json:"wlock,omitempty"`
 	GapMS    int      `json:"gap_ms"` // the submitter sleeps this long before submitting
@@ -84,6 +85,7 @@ func c14Gen(r *Rand, tier string) interface{} {
 		if r.Chance(1, 4) {
 			t.Nested = true
 			t.NestFail = failing && r.Chance(1, 3)
+			t.NestLock = r.Pick(0, 0, 1, 2, 3, 3)
 		}
 		for _, res := range []string{"db", "fs"} {
 			switch r.Intn(6) {
@@ -107,7 +109,8 @@ func (t c14Task) body() string {
 			fmt.Fprintf(&sb, "fail --id=%s\n", t.Name)
 		}
 		if k == 0 && t.Nested {
-			fmt.Fprintf(&sb, "pip:run --name=n --silent=true --body=<<EOB\nbegin --id=%s.n\nwork --id=%s.n --ms=3\n", t.Name, t.Name)
+			flags := []string{"", " --wlock=nl", " --rlock=nl", " --wlock=nl --rlock=nl"}[t.NestLock%4]
+			fmt.Fprintf(&sb, "pip:run --name=n --silent=true%s --body=<<EOB\nbegin --id=%s.n\nwork --id=%s.n --ms=3\n", flags, t.Name, t.Name)
 			if t.NestFail {
 				fmt.Fprintf(&sb, "fail --id=%s.n\n", t.Name)
 			}
@@ -331,6 +334,27 @@ func c14Run(inI interface{}, env *Env) *Failure {
 				}
 			}
 		}
+	}
+	// the same through the command line of pip:run (nested tasks): a name given to --wlock is
+	// held for writing, whatever else the line says
+	var nested []c14Task
+	for _, t := range in.Tasks {
+		if t.Nested && t.NestLock != 0 && len(sa.eventsOf(t.Name+".n")) > 0 {
+			nested = append(nested, t)
+		}
+	}
+	for i, a := range nested {
+		for _, b := range nested[i+1:] {
+			ea, eb := sa.eventsOf(a.Name+".n"), sa.eventsOf(b.Name+".n")
+			ia, ib := [2]int{ea[0].Seq, ea[len(ea)-1].Seq}, [2]int{eb[0].Seq, eb[len(eb)-1].Seq}
+			writer := a.NestLock != 2 || b.NestLock != 2
+			if writer && ia[0] < ib[1] && ib[0] < ia[1] {
+				return failf("C14/lock-map-not-honoured", "pip:run flags", "nested tasks %s.n (lock flags %d) and %s.n (lock flags %d) both name \"nl\", at least one with --wlock, and their bodies overlap: %v %v", a.Name, a.NestLock, b.Name, b.NestLock, ia, ib)
+			}
+		}
+	}
+	if len(nested) > 1 {
+		env.Count("probe.nested-tasks-with-lock-flags")
 	}
 	if anyFailed != (waitErr != nil) {
 		return failf("C14/manager-wait-result", "", "TasksManager.Wait returned %v but tasks with errors: %v", waitErr, taskErrs)
